@@ -6,7 +6,7 @@ import MirProofs.Props.C14
 # C14 — the input validators as REGENERATED from the source equal the hand-written validator model
 
 `lean/MirGen/Validators.lean` is rewritten from mir_eval's AST on every run (`harness/translate/validators.py`): one shallow
-definition `Mir.Gen.<module>.<function>` per validator, following the source's statements, the order of its checks and its
+definition `Mir.GenV.<module>.<function>` per validator, following the source's statements, the order of its checks and its
 exception classes, over the run-time library `MirModel/PyVal.lean`.  This file proves, for ALL arguments (arrays of any shape
 with any data — no well-formedness hypothesis —, every `max_time` / `max_freq` / `min_freq` / flag), that each of them is the
 hand-written model of `MirModel/Validate.lean`, and re-states the headline C14 theorems (`Props/C14.lean`: what exactly is
@@ -21,18 +21,18 @@ open Mir Mir.Validate Mir.PyV
 
 /-! ## util -/
 
-theorem validate_events_eq_model (e : Arr) (m : Rat) : Gen.util.validate_events e m = utilEvents e m := by
-  unfold Gen.util.validate_events utilEvents
+theorem validate_events_eq_model (e : Arr) (m : Rat) : GenV.util.validate_events e m = utilEvents e m := by
+  unfold GenV.util.validate_events utilEvents
   by_cases h : e.ndim = 1
   · obtain ⟨s, hs⟩ := diff_data_of_ndim_one h
     simp [hs, h]
   · simp [decide_eq_comm, Bool.or_comm, h]
 
-theorem validate_events_default (e : Arr) : Gen.util.validate_events e = utilEvents e 30000 :=
+theorem validate_events_default (e : Arr) : GenV.util.validate_events e = utilEvents e 30000 :=
   validate_events_eq_model e 30000
 
-theorem validate_intervals_eq_model (iv : Arr) : Gen.util.validate_intervals iv = utilIntervals iv := by
-  unfold Gen.util.validate_intervals utilIntervals
+theorem validate_intervals_eq_model (iv : Arr) : GenV.util.validate_intervals iv = utilIntervals iv := by
+  unfold GenV.util.validate_intervals utilIntervals
   rcases iv with ⟨s, d⟩
   match s with
   | [] => simp [decide_eq_comm, Bool.or_comm, Arr.ndim, notNby2, check]
@@ -47,45 +47,45 @@ theorem validate_intervals_eq_model (iv : Arr) : Gen.util.validate_intervals iv 
       · simp [decide_eq_comm, Bool.or_comm, Arr.ndim, notNby2, check, shapeAt, hk]
 
 theorem validate_frequencies_eq_model (f : Arr) (mx mn : Rat) (neg : Bool) :
-    Gen.util.validate_frequencies f mx mn neg = utilFrequencies f mx mn neg := by
-  unfold Gen.util.validate_frequencies utilFrequencies
+    GenV.util.validate_frequencies f mx mn neg = utilFrequencies f mx mn neg := by
+  unfold GenV.util.validate_frequencies utilFrequencies
   cases neg <;> simp [decide_eq_comm, Bool.or_comm, List.any_map, Function.comp_def]
 
 theorem validate_frequencies_default (f : Arr) (mx mn : Rat) :
-    Gen.util.validate_frequencies f mx mn = utilFrequencies f mx mn false :=
+    GenV.util.validate_frequencies f mx mn = utilFrequencies f mx mn false :=
   validate_frequencies_eq_model f mx mn false
 
 /-! ## beat / onset / tempo -/
 
-theorem beat_max_time : Gen.beat.MAX_TIME = maxTime := rfl
-theorem onset_max_time : Gen.onset.MAX_TIME = maxTime := rfl
+theorem beat_max_time : GenV.beat.MAX_TIME = maxTime := rfl
+theorem onset_max_time : GenV.onset.MAX_TIME = maxTime := rfl
 
-theorem beat_validate_eq_model (r e : Arr) : Gen.beat.validate r e = beatValidate r e := by
-  simp [decide_eq_comm, Bool.or_comm, Gen.beat.validate, beatValidate, forEach, validate_events_eq_model, beat_max_time]
+theorem beat_validate_eq_model (r e : Arr) : GenV.beat.validate r e = beatValidate r e := by
+  simp [decide_eq_comm, Bool.or_comm, GenV.beat.validate, beatValidate, forEach, validate_events_eq_model, beat_max_time]
 
-theorem onset_validate_eq_model (r e : Arr) : Gen.onset.validate r e = onsetValidate r e := by
-  simp [decide_eq_comm, Bool.or_comm, Gen.onset.validate, onsetValidate, forEach, validate_events_eq_model, onset_max_time]
+theorem onset_validate_eq_model (r e : Arr) : GenV.onset.validate r e = onsetValidate r e := by
+  simp [decide_eq_comm, Bool.or_comm, GenV.onset.validate, onsetValidate, forEach, validate_events_eq_model, onset_max_time]
 
-theorem validate_tempi_eq_model (t : Arr) (ref : Bool) : Gen.tempo.validate_tempi t ref = tempoTempi t ref := by
-  simp [decide_eq_comm, Bool.or_comm, Gen.tempo.validate_tempi, tempoTempi]
+theorem validate_tempi_eq_model (t : Arr) (ref : Bool) : GenV.tempo.validate_tempi t ref = tempoTempi t ref := by
+  simp [decide_eq_comm, Bool.or_comm, GenV.tempo.validate_tempi, tempoTempi]
 
-theorem validate_tempi_default (t : Arr) : Gen.tempo.validate_tempi t = tempoTempi t true :=
+theorem validate_tempi_default (t : Arr) : GenV.tempo.validate_tempi t = tempoTempi t true :=
   validate_tempi_eq_model t true
 
 theorem tempo_validate_eq_model (rt : Arr) (w : Rat) (et : Arr) :
-    Gen.tempo.validate rt w et = tempoValidate rt w et := by
-  simp [decide_eq_comm, Bool.or_comm, Gen.tempo.validate, tempoValidate, validate_tempi_eq_model]
+    GenV.tempo.validate rt w et = tempoValidate rt w et := by
+  simp [decide_eq_comm, Bool.or_comm, GenV.tempo.validate, tempoValidate, validate_tempi_eq_model]
 
 /-! ## segment -/
 
 theorem validate_boundary_eq_model (r e : Arr) (trim : Bool) :
-    Gen.segment.validate_boundary r e trim = segmentBoundary r e trim := by
-  simp [decide_eq_comm, Bool.or_comm, Gen.segment.validate_boundary, segmentBoundary, forEach, validate_intervals_eq_model]
+    GenV.segment.validate_boundary r e trim = segmentBoundary r e trim := by
+  simp [decide_eq_comm, Bool.or_comm, GenV.segment.validate_boundary, segmentBoundary, forEach, validate_intervals_eq_model]
 
 /-- one turn of the loop of `validate_structure` -/
 theorem structure_side (iv : Arr) (n : Nat) :
     (do
-      Gen.util.validate_intervals iv
+      GenV.util.validate_intervals iv
       let t ← shapeAt iv 0
       raiseIf PyErr.valueError (decide (t ≠ n))
       if (decide (iv.size > 0)) then do
@@ -97,8 +97,8 @@ theorem structure_side (iv : Arr) (n : Nat) :
   by_cases h : iv.size > 0 <;> simp [decide_eq_comm, Bool.or_comm, h]
 
 theorem validate_structure_eq_model (ri : Arr) (nr : Nat) (ei : Arr) (ne : Nat) :
-    Gen.segment.validate_structure ri nr ei ne = segmentStructure ri nr ei ne := by
-  unfold Gen.segment.validate_structure segmentStructure
+    GenV.segment.validate_structure ri nr ei ne = segmentStructure ri nr ei ne := by
+  unfold GenV.segment.validate_structure segmentStructure
   simp only [forEach]
   rw [← structure_side ri nr, ← structure_side ei ne]
   unfold endTogether
@@ -106,8 +106,8 @@ theorem validate_structure_eq_model (ri : Arr) (nr : Nat) (ei : Arr) (ne : Nat) 
 
 /-! ## alignment -/
 
-theorem alignment_validate_eq_model (r e : Arr) : Gen.alignment.validate r e = alignmentValidate r e := by
-  unfold Gen.alignment.validate alignmentValidate
+theorem alignment_validate_eq_model (r e : Arr) : GenV.alignment.validate r e = alignmentValidate r e := by
+  unfold GenV.alignment.validate alignmentValidate
   by_cases hr : r.ndim = 1
   · by_cases he : e.ndim = 1
     · obtain ⟨s, h1, h2, h3⟩ := sub_tail_init_of_ndim_one hr
@@ -118,12 +118,12 @@ theorem alignment_validate_eq_model (r e : Arr) : Gen.alignment.validate r e = a
 
 /-! ## melody -/
 
-theorem validate_voicing_eq_model (rv ev : Arr) : Gen.melody.validate_voicing rv ev = melodyVoicing rv ev := by
-  simp [decide_eq_comm, Bool.or_comm, Gen.melody.validate_voicing, melodyVoicing, forEach]
+theorem validate_voicing_eq_model (rv ev : Arr) : GenV.melody.validate_voicing rv ev = melodyVoicing rv ev := by
+  simp [decide_eq_comm, Bool.or_comm, GenV.melody.validate_voicing, melodyVoicing, forEach]
 
 theorem melody_validate_eq_model (rv rc ev ec : Arr) :
-    Gen.melody.validate rv rc ev ec = melodyValidate rv rc ev ec := by
-  unfold Gen.melody.validate melodyValidate
+    GenV.melody.validate rv rc ev ec = melodyValidate rv rc ev ec := by
+  unfold GenV.melody.validate melodyValidate
   rcases rv with ⟨_ | ⟨a, _⟩, _⟩ <;> rcases rc with ⟨_ | ⟨b, _⟩, _⟩ <;> simp [decide_eq_comm, Bool.or_comm, Arr.shape0]
   by_cases h1 : a = b
   · rcases ev with ⟨_ | ⟨c, _⟩, _⟩ <;> rcases ec with ⟨_ | ⟨d, _⟩, _⟩ <;> simp [decide_eq_comm, Bool.or_comm, h1]
@@ -133,8 +133,8 @@ theorem melody_validate_eq_model (rv rc ev ec : Arr) :
 /-! ## transcription / transcription_velocity -/
 
 theorem transcription_validate_intervals_eq_model (ri ei : Arr) :
-    Gen.transcription.validate_intervals ri ei = transcriptionIntervals ri ei := by
-  simp [decide_eq_comm, Bool.or_comm, Gen.transcription.validate_intervals, transcriptionIntervals, validate_intervals_eq_model]
+    GenV.transcription.validate_intervals ri ei = transcriptionIntervals ri ei := by
+  simp [decide_eq_comm, Bool.or_comm, GenV.transcription.validate_intervals, transcriptionIntervals, validate_intervals_eq_model]
 
 /-- `if a.size > 0 and np.min(a) <cmp> 0: raise` -/
 theorem size_and_min (a : Arr) (g : Rat → Bool) :
@@ -152,31 +152,31 @@ theorem size_and_min (a : Arr) (g : Rat → Bool) :
     rfl
 
 theorem transcription_validate_eq_model (ri rp ei ep : Arr) :
-    Gen.transcription.validate ri rp ei ep = transcriptionValidate ri rp ei ep := by
-  unfold Gen.transcription.validate transcriptionValidate minNonPositive
+    GenV.transcription.validate ri rp ei ep = transcriptionValidate ri rp ei ep := by
+  unfold GenV.transcription.validate transcriptionValidate minNonPositive
   rw [← size_and_min rp (fun m => decide (m ≤ 0)), ← size_and_min ep (fun m => decide (m ≤ 0))]
   simp [decide_eq_comm, Bool.or_comm, transcription_validate_intervals_eq_model, bind_assoc]
 
 theorem velocity_validate_eq_model (ri rp rv ei ep ev : Arr) :
-    Gen.transcription_velocity.validate ri rp rv ei ep ev = velocityValidate ri rp rv ei ep ev := by
-  unfold Gen.transcription_velocity.validate velocityValidate minNegative
+    GenV.transcription_velocity.validate ri rp rv ei ep ev = velocityValidate ri rp rv ei ep ev := by
+  unfold GenV.transcription_velocity.validate velocityValidate minNegative
   rw [← size_and_min rv (fun m => decide (m < 0)), ← size_and_min ev (fun m => decide (m < 0))]
   simp [decide_eq_comm, Bool.or_comm, transcription_validate_eq_model, bind_assoc]
 
 /-! ## multipitch -/
 
 theorem multipitch_validate_eq_model (rt : Arr) (rf : List Arr) (et : Arr) (ef : List Arr) :
-    Gen.multipitch.validate rt rf et ef = multipitchValidate rt rf et ef := by
-  have h1 : Gen.multipitch.MAX_TIME = maxTime := rfl
-  have h2 : Gen.multipitch.MAX_FREQ = maxFreq := rfl
-  have h3 : Gen.multipitch.MIN_FREQ = minFreq := rfl
-  simp [decide_eq_comm, Bool.or_comm, Gen.multipitch.validate, multipitchValidate, validate_events_eq_model, validate_frequencies_eq_model, h1, h2, h3]
+    GenV.multipitch.validate rt rf et ef = multipitchValidate rt rf et ef := by
+  have h1 : GenV.multipitch.MAX_TIME = maxTime := rfl
+  have h2 : GenV.multipitch.MAX_FREQ = maxFreq := rfl
+  have h3 : GenV.multipitch.MIN_FREQ = minFreq := rfl
+  simp [decide_eq_comm, Bool.or_comm, GenV.multipitch.validate, multipitchValidate, validate_events_eq_model, validate_frequencies_eq_model, h1, h2, h3]
 
 /-! ## hierarchy (mirrors the known defect: a one-level hierarchy is never looked at) -/
 
 theorem validate_hier_intervals_eq_model (levels : List Arr) :
-    Gen.hierarchy.validate_hier_intervals levels = hierValidate levels := by
-  unfold Gen.hierarchy.validate_hier_intervals hierValidate
+    GenV.hierarchy.validate_hier_intervals levels = hierValidate levels := by
+  unfold GenV.hierarchy.validate_hier_intervals hierValidate
   cases levels with
   | nil => simp
   | cons top rest => simp [decide_eq_comm, Bool.or_comm, validate_structure_eq_model]
@@ -184,17 +184,17 @@ theorem validate_hier_intervals_eq_model (levels : List Arr) :
 /-! ## pattern -/
 
 theorem n_onset_midi_eq (p : Patterns) :
-    Gen.pattern._n_onset_midi p = .ok (p.flatMap fun pat => pat.flatMap fun occ => occ).length := by
-  simp [decide_eq_comm, Bool.or_comm, Gen.pattern._n_onset_midi, pure, Except.pure]
+    GenV.pattern._n_onset_midi p = .ok (p.flatMap fun pat => pat.flatMap fun occ => occ).length := by
+  simp [decide_eq_comm, Bool.or_comm, GenV.pattern._n_onset_midi, pure, Except.pure]
 
-theorem pattern_validate_eq_model (r e : Patterns) : Gen.pattern.validate r e = patternValidate r e := by
-  simp [decide_eq_comm, Bool.or_comm, Gen.pattern.validate, n_onset_midi_eq, patternValidate, patternSide, forEach]
+theorem pattern_validate_eq_model (r e : Patterns) : GenV.pattern.validate r e = patternValidate r e := by
+  simp [decide_eq_comm, Bool.or_comm, GenV.pattern.validate, n_onset_midi_eq, patternValidate, patternSide, forEach]
 
 /-! ## separation -/
 
-theorem separation_validate_eq_model (r e : Src) : Gen.separation.validate r e = separationValidate r e := by
-  unfold Gen.separation.validate separationValidate silentCheck
-  have hm : Gen.separation.MAX_SOURCES = maxSources := rfl
+theorem separation_validate_eq_model (r e : Src) : GenV.separation.validate r e = separationValidate r e := by
+  unfold GenV.separation.validate separationValidate silentCheck
+  have hm : GenV.separation.MAX_SOURCES = maxSources := rfl
   by_cases hs : r.shape = e.shape
   · rcases r with ⟨rs, rf⟩
     rcases e with ⟨es, ef⟩
@@ -215,155 +215,155 @@ theorem separation_validate_eq_model (r e : Src) : Gen.separation.validate r e =
 conventions stated independently in `Props/C14.lean`.  Where Python partiality is reachable (0-d arrays: `shape[0]` →
 `IndexError`, `len()` → `TypeError`) the statement says exactly where. -/
 
-theorem gen_validate_events_total (e : Arr) (m : Rat) : OkOrVE (Gen.util.validate_events e m) := by
+theorem gen_validate_events_total (e : Arr) (m : Rat) : OkOrVE (GenV.util.validate_events e m) := by
   rw [validate_events_eq_model]; exact validate_events_total e m
-theorem gen_validate_events_ok_iff (e : Arr) (m : Rat) : Gen.util.validate_events e m = .ok () ↔ ValidEvents e m := by
+theorem gen_validate_events_ok_iff (e : Arr) (m : Rat) : GenV.util.validate_events e m = .ok () ↔ ValidEvents e m := by
   rw [validate_events_eq_model]; exact validate_events_ok_iff e m
 
-theorem gen_validate_intervals_total (iv : Arr) : OkOrVE (Gen.util.validate_intervals iv) := by
+theorem gen_validate_intervals_total (iv : Arr) : OkOrVE (GenV.util.validate_intervals iv) := by
   rw [validate_intervals_eq_model]; exact validate_intervals_total iv
-theorem gen_validate_intervals_ok_iff (iv : Arr) : Gen.util.validate_intervals iv = .ok () ↔ ValidIntervals iv := by
+theorem gen_validate_intervals_ok_iff (iv : Arr) : GenV.util.validate_intervals iv = .ok () ↔ ValidIntervals iv := by
   rw [validate_intervals_eq_model]; exact validate_intervals_ok_iff iv
 
 theorem gen_validate_frequencies_total (f : Arr) (mx mn : Rat) (neg : Bool) :
-    OkOrVE (Gen.util.validate_frequencies f mx mn neg) := by
+    OkOrVE (GenV.util.validate_frequencies f mx mn neg) := by
   rw [validate_frequencies_eq_model]; exact validate_frequencies_total f mx mn neg
 theorem gen_validate_frequencies_ok_iff (f : Arr) (mx mn : Rat) (neg : Bool) :
-    Gen.util.validate_frequencies f mx mn neg = .ok () ↔ ValidFrequencies f mx mn := by
+    GenV.util.validate_frequencies f mx mn neg = .ok () ↔ ValidFrequencies f mx mn := by
   rw [validate_frequencies_eq_model]; exact validate_frequencies_ok_iff f mx mn neg
 /-- the known defect, on the translated code: `allow_negatives` changes nothing -/
 theorem gen_validate_frequencies_flag_irrelevant (f : Arr) (mx mn : Rat) (neg : Bool) :
-    Gen.util.validate_frequencies f mx mn neg = Gen.util.validate_frequencies f mx mn true := by
+    GenV.util.validate_frequencies f mx mn neg = GenV.util.validate_frequencies f mx mn true := by
   rw [validate_frequencies_eq_model, validate_frequencies_eq_model]; exact validate_frequencies_flag_irrelevant f mx mn neg
 
-theorem gen_beat_validate_total (r e : Arr) : OkOrVE (Gen.beat.validate r e) := by
+theorem gen_beat_validate_total (r e : Arr) : OkOrVE (GenV.beat.validate r e) := by
   rw [beat_validate_eq_model]; exact beat_validate_total r e
 theorem gen_beat_validate_ok_iff (r e : Arr) :
-    Gen.beat.validate r e = .ok () ↔ ValidEvents r 30000 ∧ ValidEvents e 30000 := by
+    GenV.beat.validate r e = .ok () ↔ ValidEvents r 30000 ∧ ValidEvents e 30000 := by
   rw [beat_validate_eq_model]; exact beat_validate_ok_iff r e
-theorem gen_onset_validate_total (r e : Arr) : OkOrVE (Gen.onset.validate r e) := by
+theorem gen_onset_validate_total (r e : Arr) : OkOrVE (GenV.onset.validate r e) := by
   rw [onset_validate_eq_model]; exact onset_validate_total r e
 theorem gen_onset_validate_ok_iff (r e : Arr) :
-    Gen.onset.validate r e = .ok () ↔ ValidEvents r 30000 ∧ ValidEvents e 30000 := by
+    GenV.onset.validate r e = .ok () ↔ ValidEvents r 30000 ∧ ValidEvents e 30000 := by
   rw [onset_validate_eq_model]; exact onset_validate_ok_iff r e
 
-theorem gen_validate_tempi_total (t : Arr) (ref : Bool) : OkOrVE (Gen.tempo.validate_tempi t ref) := by
+theorem gen_validate_tempi_total (t : Arr) (ref : Bool) : OkOrVE (GenV.tempo.validate_tempi t ref) := by
   rw [validate_tempi_eq_model]; exact validate_tempi_total t ref
-theorem gen_validate_tempi_ok_iff (t : Arr) (ref : Bool) : Gen.tempo.validate_tempi t ref = .ok () ↔ ValidTempi t ref := by
+theorem gen_validate_tempi_ok_iff (t : Arr) (ref : Bool) : GenV.tempo.validate_tempi t ref = .ok () ↔ ValidTempi t ref := by
   rw [validate_tempi_eq_model]; exact validate_tempi_ok_iff t ref
-theorem gen_tempo_validate_total (rt : Arr) (w : Rat) (et : Arr) : OkOrVE (Gen.tempo.validate rt w et) := by
+theorem gen_tempo_validate_total (rt : Arr) (w : Rat) (et : Arr) : OkOrVE (GenV.tempo.validate rt w et) := by
   rw [tempo_validate_eq_model]; exact tempo_validate_total rt w et
 theorem gen_tempo_validate_ok_iff (rt : Arr) (w : Rat) (et : Arr) :
-    Gen.tempo.validate rt w et = .ok () ↔ ValidTempo rt w et := by
+    GenV.tempo.validate rt w et = .ok () ↔ ValidTempo rt w et := by
   rw [tempo_validate_eq_model]; exact tempo_validate_ok_iff rt w et
 
 theorem gen_validate_boundary_total {r e : Arr} (hr : r.shape ≠ []) (he : e.shape ≠ []) (trim : Bool) :
-    OkOrVE (Gen.segment.validate_boundary r e trim) := by
+    OkOrVE (GenV.segment.validate_boundary r e trim) := by
   rw [validate_boundary_eq_model]; exact validate_boundary_total hr he trim
 theorem gen_validate_boundary_zero_dim {r e : Arr} (hr : r.shape = []) (trim : Bool) :
-    Gen.segment.validate_boundary r e trim = .error .typeError := by
+    GenV.segment.validate_boundary r e trim = .error .typeError := by
   rw [validate_boundary_eq_model]; exact validate_boundary_zero_dim hr trim
 theorem gen_validate_boundary_ok_iff (r e : Arr) (trim : Bool) :
-    Gen.segment.validate_boundary r e trim = .ok () ↔ ValidIntervals r ∧ ValidIntervals e := by
+    GenV.segment.validate_boundary r e trim = .ok () ↔ ValidIntervals r ∧ ValidIntervals e := by
   rw [validate_boundary_eq_model]; exact validate_boundary_ok_iff r e trim
 theorem gen_validate_structure_total (ri : Arr) (nr : Nat) (ei : Arr) (ne : Nat) :
-    OkOrVE (Gen.segment.validate_structure ri nr ei ne) := by
+    OkOrVE (GenV.segment.validate_structure ri nr ei ne) := by
   rw [validate_structure_eq_model]; exact validate_structure_total ri nr ei ne
 theorem gen_validate_structure_ok_iff (ri : Arr) (nr : Nat) (ei : Arr) (ne : Nat) :
-    Gen.segment.validate_structure ri nr ei ne = .ok () ↔ ValidStructure ri nr ei ne := by
+    GenV.segment.validate_structure ri nr ei ne = .ok () ↔ ValidStructure ri nr ei ne := by
   rw [validate_structure_eq_model]; exact validate_structure_ok_iff ri nr ei ne
 
-theorem gen_alignment_validate_total (r e : Arr) : OkOrVE (Gen.alignment.validate r e) := by
+theorem gen_alignment_validate_total (r e : Arr) : OkOrVE (GenV.alignment.validate r e) := by
   rw [alignment_validate_eq_model]; exact alignment_validate_total r e
-theorem gen_alignment_validate_ok_iff (r e : Arr) : Gen.alignment.validate r e = .ok () ↔ ValidAlignment r e := by
+theorem gen_alignment_validate_ok_iff (r e : Arr) : GenV.alignment.validate r e = .ok () ↔ ValidAlignment r e := by
   rw [alignment_validate_eq_model]; exact alignment_validate_ok_iff r e
 
 theorem gen_validate_voicing_total {rv ev : Arr} (hr : rv.shape ≠ []) (he : ev.shape ≠ []) :
-    OkOrVE (Gen.melody.validate_voicing rv ev) := by
+    OkOrVE (GenV.melody.validate_voicing rv ev) := by
   rw [validate_voicing_eq_model]; exact validate_voicing_total hr he
 theorem gen_validate_voicing_zero_dim {rv ev : Arr} (hr : rv.shape = []) :
-    Gen.melody.validate_voicing rv ev = .error .indexError := by
+    GenV.melody.validate_voicing rv ev = .error .indexError := by
   rw [validate_voicing_eq_model]; exact validate_voicing_zero_dim hr
-theorem gen_validate_voicing_ok_iff (rv ev : Arr) : Gen.melody.validate_voicing rv ev = .ok () ↔ ValidVoicing rv ev := by
+theorem gen_validate_voicing_ok_iff (rv ev : Arr) : GenV.melody.validate_voicing rv ev = .ok () ↔ ValidVoicing rv ev := by
   rw [validate_voicing_eq_model]; exact validate_voicing_ok_iff rv ev
 theorem gen_melody_validate_total {rv rc ev ec : Arr} (h1 : rv.shape ≠ []) (h2 : rc.shape ≠ []) (h3 : ev.shape ≠ [])
-    (h4 : ec.shape ≠ []) : OkOrVE (Gen.melody.validate rv rc ev ec) := by
+    (h4 : ec.shape ≠ []) : OkOrVE (GenV.melody.validate rv rc ev ec) := by
   rw [melody_validate_eq_model]; exact melody_validate_total h1 h2 h3 h4
 theorem gen_melody_validate_ok_iff (rv rc ev ec : Arr) :
-    Gen.melody.validate rv rc ev ec = .ok () ↔ ValidMelody rv rc ev ec := by
+    GenV.melody.validate rv rc ev ec = .ok () ↔ ValidMelody rv rc ev ec := by
   rw [melody_validate_eq_model]; exact melody_validate_ok_iff rv rc ev ec
 
-theorem gen_validate_note_intervals_total (ri ei : Arr) : OkOrVE (Gen.transcription.validate_intervals ri ei) := by
+theorem gen_validate_note_intervals_total (ri ei : Arr) : OkOrVE (GenV.transcription.validate_intervals ri ei) := by
   rw [transcription_validate_intervals_eq_model]; exact validate_note_intervals_total ri ei
 theorem gen_validate_note_intervals_ok_iff (ri ei : Arr) :
-    Gen.transcription.validate_intervals ri ei = .ok () ↔ ValidIntervals ri ∧ ValidIntervals ei := by
+    GenV.transcription.validate_intervals ri ei = .ok () ↔ ValidIntervals ri ∧ ValidIntervals ei := by
   rw [transcription_validate_intervals_eq_model]; exact validate_note_intervals_ok_iff ri ei
 theorem gen_transcription_validate_total {ri rp ei ep : Arr} (hr : rp.shape ≠ []) (he : ep.shape ≠ []) :
-    OkOrVE (Gen.transcription.validate ri rp ei ep) := by
+    OkOrVE (GenV.transcription.validate ri rp ei ep) := by
   rw [transcription_validate_eq_model]; exact transcription_validate_total hr he
 theorem gen_transcription_validate_zero_dim {ri rp ei ep : Arr} (hri : ValidIntervals ri) (hei : ValidIntervals ei)
-    (hr : rp.shape = []) : Gen.transcription.validate ri rp ei ep = .error .indexError := by
+    (hr : rp.shape = []) : GenV.transcription.validate ri rp ei ep = .error .indexError := by
   rw [transcription_validate_eq_model]; exact transcription_validate_zero_dim hri hei hr
 theorem gen_transcription_validate_ok_iff (ri rp ei ep : Arr) :
-    Gen.transcription.validate ri rp ei ep = .ok () ↔ ValidNotes ri rp ∧ ValidNotes ei ep := by
+    GenV.transcription.validate ri rp ei ep = .ok () ↔ ValidNotes ri rp ∧ ValidNotes ei ep := by
   rw [transcription_validate_eq_model]; exact transcription_validate_ok_iff ri rp ei ep
 theorem gen_velocity_validate_total {ri rp rv ei ep ev : Arr} (h1 : rp.shape ≠ []) (h2 : ep.shape ≠ [])
-    (h3 : rv.shape ≠ []) (h4 : ev.shape ≠ []) : OkOrVE (Gen.transcription_velocity.validate ri rp rv ei ep ev) := by
+    (h3 : rv.shape ≠ []) (h4 : ev.shape ≠ []) : OkOrVE (GenV.transcription_velocity.validate ri rp rv ei ep ev) := by
   rw [velocity_validate_eq_model]; exact velocity_validate_total h1 h2 h3 h4
 theorem gen_velocity_validate_ok_iff (ri rp rv ei ep ev : Arr) :
-    Gen.transcription_velocity.validate ri rp rv ei ep ev = .ok () ↔
+    GenV.transcription_velocity.validate ri rp rv ei ep ev = .ok () ↔
       ValidVelocityNotes ri rp rv ∧ ValidVelocityNotes ei ep ev := by
   rw [velocity_validate_eq_model]; exact velocity_validate_ok_iff ri rp rv ei ep ev
 
 theorem gen_multipitch_validate_total (rt : Arr) (rf : List Arr) (et : Arr) (ef : List Arr) :
-    OkOrVE (Gen.multipitch.validate rt rf et ef) := by
+    OkOrVE (GenV.multipitch.validate rt rf et ef) := by
   rw [multipitch_validate_eq_model]; exact multipitch_validate_total rt rf et ef
 theorem gen_multipitch_validate_ok_iff (rt : Arr) (rf : List Arr) (et : Arr) (ef : List Arr) :
-    Gen.multipitch.validate rt rf et ef = .ok () ↔ ValidMultipitch rt rf et ef := by
+    GenV.multipitch.validate rt rf et ef = .ok () ↔ ValidMultipitch rt rf et ef := by
   rw [multipitch_validate_eq_model]; exact multipitch_validate_ok_iff rt rf et ef
 
 theorem gen_hier_validate_total {levels : List Arr} (hne : levels ≠ []) (h : ∀ l ∈ levels, l.shape ≠ []) :
-    OkOrVE (Gen.hierarchy.validate_hier_intervals levels) := by
+    OkOrVE (GenV.hierarchy.validate_hier_intervals levels) := by
   rw [validate_hier_intervals_eq_model]; exact hier_validate_total hne h
 theorem gen_hier_validate_zero_dim_top {top : Arr} (rest : List Arr) (h : top.shape = []) :
-    Gen.hierarchy.validate_hier_intervals (top :: rest) = .error .typeError := by
+    GenV.hierarchy.validate_hier_intervals (top :: rest) = .error .typeError := by
   rw [validate_hier_intervals_eq_model]; exact hier_validate_zero_dim_top rest h
 theorem gen_hier_validate_ok_iff (levels : List Arr) :
-    Gen.hierarchy.validate_hier_intervals levels = .ok () ↔ CheckedHierarchy levels := by
+    GenV.hierarchy.validate_hier_intervals levels = .ok () ↔ CheckedHierarchy levels := by
   rw [validate_hier_intervals_eq_model]; exact hier_validate_ok_iff levels
 theorem gen_hier_validate_ok_iff_documented (top lvl : Arr) (rest : List Arr) :
-    Gen.hierarchy.validate_hier_intervals (top :: lvl :: rest) = .ok () ↔ DocumentedHierarchy (top :: lvl :: rest) := by
+    GenV.hierarchy.validate_hier_intervals (top :: lvl :: rest) = .ok () ↔ DocumentedHierarchy (top :: lvl :: rest) := by
   rw [validate_hier_intervals_eq_model]; exact hier_validate_ok_iff_documented top lvl rest
 /-- the known defect, on the translated code: a one-level hierarchy is never looked at -/
 theorem gen_hier_validate_single_level_unchecked (a : Arr) (h : a.shape ≠ []) :
-    Gen.hierarchy.validate_hier_intervals [a] = .ok () := by
+    GenV.hierarchy.validate_hier_intervals [a] = .ok () := by
   rw [validate_hier_intervals_eq_model]; exact hier_validate_single_level_unchecked a h
 
-theorem gen_pattern_validate_total (r e : Patterns) : OkOrVE (Gen.pattern.validate r e) := by
+theorem gen_pattern_validate_total (r e : Patterns) : OkOrVE (GenV.pattern.validate r e) := by
   rw [pattern_validate_eq_model]; exact pattern_validate_total r e
 theorem gen_pattern_validate_ok_iff (r e : Patterns) :
-    Gen.pattern.validate r e = .ok () ↔ ValidPatterns r ∧ ValidPatterns e := by
+    GenV.pattern.validate r e = .ok () ↔ ValidPatterns r ∧ ValidPatterns e := by
   rw [pattern_validate_eq_model]; exact pattern_validate_ok_iff r e
 
-theorem gen_separation_validate_total (r e : Src) : OkOrVE (Gen.separation.validate r e) := by
+theorem gen_separation_validate_total (r e : Src) : OkOrVE (GenV.separation.validate r e) := by
   rw [separation_validate_eq_model]; exact separation_validate_total r e
-theorem gen_separation_validate_ok_iff (r e : Src) : Gen.separation.validate r e = .ok () ↔ ValidSources r e := by
+theorem gen_separation_validate_ok_iff (r e : Src) : GenV.separation.validate r e = .ok () ↔ ValidSources r e := by
   rw [separation_validate_eq_model]; exact separation_validate_ok_iff r e
 
 /-! ## non-vacuity: the translated definitions compute -/
 
-example : Gen.util.validate_events (Arr.vec [0, 1, 1, 30000]) = .ok () := by decide +kernel
-example : Gen.util.validate_events (Arr.vec [0, 2, 1]) = .error .valueError := by decide +kernel
-example : Gen.util.validate_events ⟨[2, 1], [0, 1]⟩ = .error .valueError := by decide +kernel
-example : Gen.util.validate_intervals ⟨[2, 2], [0, 1, 1, 5 / 2]⟩ = .ok () := by decide +kernel
-example : Gen.util.validate_intervals ⟨[1, 3], [0, 1, 2]⟩ = .error .valueError := by decide +kernel
-example : Gen.util.validate_intervals ⟨[1, 2], [1, 1]⟩ = .error .valueError := by decide +kernel
-example : Gen.util.validate_frequencies (Arr.vec [-440]) 5000 20 = .ok () := by decide +kernel
-example : Gen.segment.validate_boundary ⟨[], [1]⟩ ⟨[1, 2], [0, 1]⟩ true = .error .typeError := by decide +kernel
-example : Gen.melody.validate_voicing ⟨[], [1]⟩ (Arr.vec [1]) = .error .indexError := by decide +kernel
-example : Gen.alignment.validate (Arr.vec [0, 1, 1]) (Arr.vec [1 / 2, 1, 3]) = .ok () := by decide +kernel
-example : Gen.hierarchy.validate_hier_intervals [] = .error .indexError := by decide +kernel
-example : Gen.hierarchy.validate_hier_intervals [⟨[1, 2], [5, 4]⟩] = .ok () := by decide +kernel
-example : Gen.pattern._n_onset_midi [[[[0, 60], [1, 62]], [[2, 60]]], [[[3, 64]]]] = .ok 4 := by decide +kernel
+example : GenV.util.validate_events (Arr.vec [0, 1, 1, 30000]) = .ok () := by decide +kernel
+example : GenV.util.validate_events (Arr.vec [0, 2, 1]) = .error .valueError := by decide +kernel
+example : GenV.util.validate_events ⟨[2, 1], [0, 1]⟩ = .error .valueError := by decide +kernel
+example : GenV.util.validate_intervals ⟨[2, 2], [0, 1, 1, 5 / 2]⟩ = .ok () := by decide +kernel
+example : GenV.util.validate_intervals ⟨[1, 3], [0, 1, 2]⟩ = .error .valueError := by decide +kernel
+example : GenV.util.validate_intervals ⟨[1, 2], [1, 1]⟩ = .error .valueError := by decide +kernel
+example : GenV.util.validate_frequencies (Arr.vec [-440]) 5000 20 = .ok () := by decide +kernel
+example : GenV.segment.validate_boundary ⟨[], [1]⟩ ⟨[1, 2], [0, 1]⟩ true = .error .typeError := by decide +kernel
+example : GenV.melody.validate_voicing ⟨[], [1]⟩ (Arr.vec [1]) = .error .indexError := by decide +kernel
+example : GenV.alignment.validate (Arr.vec [0, 1, 1]) (Arr.vec [1 / 2, 1, 3]) = .ok () := by decide +kernel
+example : GenV.hierarchy.validate_hier_intervals [] = .error .indexError := by decide +kernel
+example : GenV.hierarchy.validate_hier_intervals [⟨[1, 2], [5, 4]⟩] = .ok () := by decide +kernel
+example : GenV.pattern._n_onset_midi [[[[0, 60], [1, 62]], [[2, 60]]], [[[3, 64]]]] = .ok 4 := by decide +kernel
 
 end Mir.C14.GenVal
